@@ -125,6 +125,9 @@ structure Scn where
   partforces : List PartMod := []
   parts : List PInit := []
   steps : Option Nat := none
+  /-- symbols computed by ONE module with `allPairs="yes"` (given as one `psumall` line per colour pair):
+  the module registers the attribute once per colour -/
+  allPairs : List String := []
 
 def parseDof (s : String) : Dof := if s = "vel" then .vel else .user s
 
@@ -153,6 +156,13 @@ def parseLine (sc : Scn) (toks : List String) : Option Scn :=
         parseWholeExpr e, parseWholeExpr fi, parseWholeExpr fj with
     | some c1, some c2, some s, some t, some rc, some sy, some e, some fi, some fj =>
       some { sc with sums := sc.sums ++ [(⟨c1, c2, s, .sym n, rc, sy, e, fi, fj⟩, t)] }
+    | _, _, _, _, _, _, _, _, _ => none
+  | [["psumall", c1, c2, s, n, t, rc, sy], e, fi, fj] =>
+    match c1.toNat?, c2.toNat?, s.toNat?, parseTy t, parseRat rc, parseRat sy,
+        parseWholeExpr e, parseWholeExpr fi, parseWholeExpr fj with
+    | some c1, some c2, some s, some t, some rc, some sy, some e, some fi, some fj =>
+      some { sc with sums := sc.sums ++ [(⟨c1, c2, s, .sym n, rc, sy, e, fi, fj⟩, t)],
+                     allPairs := if sc.allPairs.contains n then sc.allPairs else sc.allPairs ++ [n] }
     | _, _, _, _, _, _, _, _, _ => none
   | [["pforce", c1, c2, d, rc, sy], e, fi, fj] =>
     match c1.toNat?, c2.toNat?, parseRat rc, parseRat sy, parseWholeExpr e, parseWholeExpr fi, parseWholeExpr fj with
@@ -188,6 +198,13 @@ def formatOf (sc : Scn) : List Attr :=
       | .sym n => if m.c1 = m.c2 then [⟨m.c1, n, .sym n, t, false, true⟩]
                   else [⟨m.c1, n, .sym n, t, false, true⟩, ⟨m.c2, n, .sym n, t, false, true⟩]
       | .force _ => [])
+
+/-- an `allPairs` module registers its symbol once per colour: drop the repetitions (same colour, name and type)
+that the per-colour-pair `psumall` lines produce -/
+def dedupAllPairs (names : List String) (l : List Attr) : List Attr :=
+  l.foldl (fun acc a =>
+    if names.contains a.name && acc.any (fun b => b.colour = a.colour && b.name = a.name && b.ty = a.ty) then acc
+    else acc ++ [a]) []
 
 def hasDup (fmt : List Attr) : Bool :=
   let rec go : List Attr → Bool
@@ -292,7 +309,7 @@ def driver (lines : List String) : List String :=
   | some sc =>
     match sc.box, sc.dt, sc.steps with
     | some box, some dt, some steps =>
-      let fmt := formatOf sc
+      let fmt := dedupAllPairs sc.allPairs (formatOf sc)
       match checkAll sc fmt with
       | some e => [e]
       | none =>
